@@ -1,8 +1,11 @@
 /-
   C08 — Filtering keeps exactly the accepted nodes and their ancestors.
-  Property theorems only; helper lemmas live in Nutree/Lemmas.
+  Property theorems only; helper lemmas live in Nutree/Lemmas (Filter, FilterScan, FilterInPlace, …).
 -/
 import Nutree.Model.Filter
+import Nutree.Properties.C01
+import Nutree.Lemmas.FilterStrip
+import Nutree.Lemmas.FilterKeepSet
 namespace Nutree.C08
 open Nutree T Nutree.Flt
 
@@ -16,5 +19,265 @@ theorem spellings :
     callPredicate .raiseStopIter = .stop ∧ callPredicate .retFalse = .reject ∧ callPredicate .retNone = .reject ∧
     callPredicate .retTrue = .accept := by
   simp [callPredicate]
+
+/-! ### in-place `filter` -/
+
+/-- **(1) the registry-free description of a batch of `remove()` calls.**  On the tree value,
+folding `removeOne` over a removal list is exactly the erasure `eraseIds` of the listed subtrees
+(`Nutree/Lemmas/Filter.lean`): the order is irrelevant and removing a node whose ancestor was
+already removed is a no-op (`eraseIds_append`, `eraseIdsL_congr`). -/
+theorem removals_eq_erase (t : Tree) (rm : List NodeId) (h : IdsNodup t) :
+    (rm.foldl (fun t n => t.removeOne n) t).root = eraseIds rm t.root :=
+  foldl_removeOne_root rm h
+
+/-- (1), for `filter`: the tree value after the in-place filter is the old one without the
+subtrees the scan decided to remove. -/
+theorem filterInPlace_root (t : Tree) (start : NodeId) (v : T → Verdict) (x : T) (h : IdsNodup t)
+    (hx : findT start t.root = some x) :
+    (filterInPlace t start v).1.root = eraseIds (visitT v x).removed t.root := by
+  unfold filterInPlace
+  rw [hx]
+  exact foldl_removeOne_root _ h
+
+/-- a batch of plain removals keeps the state well-formed. -/
+theorem removals_WF : ∀ (rm : List NodeId) (t : Tree), WF t → WF (rm.foldl (fun t n => t.removeOne n) t)
+  | [], _, h => h
+  | n :: rm, t, h => by
+    rw [List.foldl_cons]
+    exact removals_WF rm _ (C01.removeOne_WF' t n h)
+
+/-- **(3) the in-place filter keeps the state well-formed, for every predicate** — including one
+that gives unrecognised answers or raises (the removals made before the exception escapes are
+complete removals: C13 for a raising predicate). -/
+theorem filterInPlace_WF (t : Tree) (start : NodeId) (v : T → Verdict) (h : WF t) :
+    WF (filterInPlace t start v).1 := by
+  unfold filterInPlace
+  cases findT start t.root with
+  | none => exact h
+  | some x => exact removals_WF _ t h
+
+/-- **(2) the in-place filter implements the specification.**  For a well-formed state, an
+existing start node `x` and a predicate that gives no unrecognised answer and raises no foreign
+exception on `x`'s branch, the filter succeeds, the start node is still there (same identity),
+and its children afterwards are *exactly* the specification's forest: kept nodes keep their
+identity, record, order and their kept descendants. -/
+theorem filterInPlace_spec (t : Tree) (start : NodeId) (v : T → Verdict) (x : T) (h : WF t)
+    (hx : findT start t.root = some x) (hv : ∀ m ∈ flatL x.kids, v m ≠ .other ∧ v m ≠ .error) :
+    ∃ x', findT start (filterInPlace t start v).1.root = some x' ∧ x'.info = x.info ∧
+      x'.kids = Spec.filterSpec v x.kids ∧ (filterInPlace t start v).2 = none := by
+  have hN := h.idsN
+  have hxN : C10.IdsNodupL x.kids := idsNodupL_kids (idsNodup_of_mem_flat hN (findT_some_mem hx))
+  obtain ⟨D, A, K, S, hr, hres⟩ := visitT_spec v (Spec.effective v x.kids) x hxN hv (agree_effective v hxN)
+  refine ⟨eraseIds (D ++ A) x, ?_, eraseIds_info _ _, ?_, ?_⟩
+  · rw [filterInPlace_root t start v x h.ids hx, hr]
+    exact findT_eraseIds hN hx hres.sub
+  · rw [eraseIds_kids, hres.erase]; rfl
+  · unfold filterInPlace
+    rw [hx]
+    simp [hr]
+
+/-! ### what is kept -/
+
+/-- **(4) kept nodes appear once each, in their original order, with unchanged records.**
+The identities (indeed the whole records) of the specification's forest, in pre-order, are a
+sub-sequence of those of the source forest; hence every kept node is a source node with the same
+`info`, and distinct source identities stay distinct. -/
+theorem kept_once_in_order (v : T → Verdict) (ks : List T) :
+    ((flatL (Spec.filterSpec v ks)).map T.id).Sublist ((flatL ks).map T.id) ∧
+    ((flatL (Spec.filterSpec v ks)).map T.info).Sublist ((flatL ks).map T.info) ∧
+    (∀ n' ∈ flatL (Spec.filterSpec v ks), ∃ n ∈ flatL ks, n.id = n'.id ∧ n.info = n'.info) ∧
+    (C10.IdsNodupL ks → C10.IdsNodupL (Spec.filterSpec v ks)) := by
+  have h : ((flatL (Spec.filterSpec v ks)).map T.info).Sublist ((flatL ks).map T.info) :=
+    infosL_keepL_sublist _ ks
+  have hid : ((flatL (Spec.filterSpec v ks)).map T.id).Sublist ((flatL ks).map T.id) := by
+    have := h.map Info.id
+    simpa [List.map_map, Function.comp_def] using this
+  refine ⟨hid, h, ?_, fun hN => List.Nodup.sublist hid hN⟩
+  intro n' hn'
+  obtain ⟨n, hn, e⟩ := List.mem_map.1 (h.subset (List.mem_map_of_mem (f := T.info) hn'))
+  exact ⟨n, hn, by show n.info.id = n'.info.id; rw [e], e⟩
+
+/-- **(5) the kept set, by an explicit ancestor relation** (`Anc a n`: `n` lies strictly below
+`a`; ancestors are taken within the filtered forest `ks`, whose identities are distinct).  With
+the effective verdicts `w := Spec.effective v ks`, a node `n` of `ks` is kept (occurs, by
+identity, in `filterSpec v ks`; by (4) with its record) iff
+* no proper ancestor of `n` blocks (`skip` / `skipKeepSelf`), and
+* `n` has an ancestor-or-self with verdict `select`, or a descendant-or-self `m` with an
+  accepting verdict (`accept` / `skipKeepSelf` / `select`) such that no node from `n` down to
+  (excluding) `m` blocks.
+The version for arbitrary verdict functions is `Flt.keptL_iff`. -/
+theorem keepSet_characterisation (v : T → Verdict) (ks : List T) (hN : C10.IdsNodupL ks) (n : T)
+    (hn : n ∈ flatL ks) :
+    (∃ n' ∈ flatL (Spec.filterSpec v ks), n'.id = n.id) ↔
+      (∀ b ∈ flatL ks, Anc b n → ¬ Blocks (Spec.effective v ks b)) ∧
+      ((∃ a ∈ flatL ks, n ∈ flat a ∧ Spec.effective v ks a = .select) ∨
+       (∃ m ∈ flat n, Accepting (Spec.effective v ks m) ∧
+          ∀ b ∈ flat n, Anc b m → ¬ Blocks (Spec.effective v ks b))) := by
+  have hA := agree_effective v hN
+  have hE := agree_below v (Spec.effective v ks) ks false hN hA
+  unfold Spec.filterSpec
+  rw [keptL_iff _ hN hn]
+  constructor
+  · rintro (⟨a, ha, hna, hwa, hfree⟩ | ⟨hfree, hwit⟩)
+    · refine ⟨fun b hb hbn hblk => ?_, Or.inl ⟨a, ha, hna, hwa⟩⟩
+      have hsel : ¬ Blocks (Spec.effective v ks a) := by rw [hwa]; rintro (h | h) <;> cases h
+      rcases anc_comparable hN ha hb hna (mem_flat_of_mem_flatL_kids hbn) with h | h
+      · rw [flat_eq, List.mem_cons] at h
+        rcases h with rfl | h
+        · exact hsel hblk
+        · exact hfree b hb h hblk
+      · rw [flat_eq, List.mem_cons] at h
+        rcases h with rfl | h
+        · exact hsel hblk
+        · have := hE a ha (by rw [hwa]; rfl) b h
+          rw [this] at hblk
+          rcases hblk with h | h <;> cases h
+    · exact ⟨hfree, Or.inr hwit⟩
+  · rintro ⟨hfree, ⟨a, ha, hna, hwa⟩ | hwit⟩
+    · exact Or.inl ⟨a, ha, hna, hwa, fun b hb hba => hfree b hb (anc_trans hba hna)⟩
+    · exact Or.inr ⟨hfree, hwit⟩
+
+/-- the scanned nodes are those before the first stop in scan order. -/
+theorem scanned_eq_before_first_stop (v : T → Verdict) (ks : List T) (pre post : List T) (m : T)
+    (h : Spec.scanL v ks = pre ++ m :: post) (hm : v m = .stop) (hpre : ∀ x ∈ pre, v x ≠ .stop) :
+    Spec.scanned v ks = pre := by
+  unfold Spec.scanned
+  rw [h, List.takeWhile_append_of_pos (fun x hx => by simpa using hpre x hx), List.takeWhile_cons,
+    if_neg (by simp [hm]), List.append_nil]
+
+/-- **(8) a stop keeps what was accepted so far.**  Everything accepted (`accept`,
+`skipKeepSelf`, `select`) among the nodes scanned before the first stop (`Spec.scanned`) is kept;
+and a node that was *not* scanned (in particular: the stopping node and everything after it in
+scan order) is kept only as a proper ancestor of such an accepted scanned node, or below a node
+that answered `select` before the stop. -/
+theorem stop_keeps_accepted_so_far (v : T → Verdict) (ks : List T) (hN : C10.IdsNodupL ks) :
+    (∀ x ∈ Spec.scanned v ks, Accepting (v x) → ∃ n' ∈ flatL (Spec.filterSpec v ks), n'.id = x.id) ∧
+    (∀ n ∈ flatL ks, n ∉ Spec.scanned v ks → (∃ n' ∈ flatL (Spec.filterSpec v ks), n'.id = n.id) →
+      (∃ x ∈ Spec.scanned v ks, Accepting (v x) ∧ Anc n x) ∨
+      (∃ a ∈ Spec.scanned v ks, v a = .select ∧ Anc a n)) := by
+  have hA := agree_effective v hN
+  have hE := agree_below v (Spec.effective v ks) ks false hN hA
+  have hacc : ∀ x ∈ flatL ks, Accepting (Spec.effective v ks x) →
+      x ∈ Spec.scanned v ks ∧ Spec.effective v ks x = v x := by
+    intro x hx h
+    by_cases hs : x ∈ Spec.scanned v ks
+    · exact ⟨hs, hA.onPre x hs⟩
+    · rw [hA.offPre x hx hs] at h
+      rcases h with h | h | h <;> cases h
+  constructor
+  · intro x hx hacc'
+    have hxm : x ∈ flatL ks := mem_pre_flatL (v := v) (s := false) hx
+    have hw : Spec.effective v ks x = v x := hA.onPre x hx
+    refine (keepSet_characterisation v ks hN x hxm).2 ⟨fun b hb hbx hblk => ?_, Or.inr
+      ⟨x, self_mem_flat x, by rw [hw]; exact hacc', fun b hb hbx => absurd hbx (not_anc_of_mem_flat hb)⟩⟩
+    have := hE b hb (not_descends_of_blocks hblk) x hbx
+    rw [hw] at this
+    rw [this] at hacc'
+    rcases hacc' with h | h | h <;> cases h
+  · intro n hn hns hk
+    have hwn : Spec.effective v ks n = .reject := hA.offPre n hn hns
+    obtain ⟨_, ⟨a, ha, hna, hwa⟩ | ⟨m, hm, hmacc, _⟩⟩ := (keepSet_characterisation v ks hN n hn).1 hk
+    · right
+      obtain ⟨has, hav⟩ := hacc a ha (Or.inr (Or.inr hwa))
+      rw [flat_eq, List.mem_cons] at hna
+      rcases hna with rfl | hna
+      · rw [hwn] at hwa; cases hwa
+      · exact ⟨a, has, hav ▸ hwa, hna⟩
+    · left
+      rw [flat_eq, List.mem_cons] at hm
+      rcases hm with rfl | hm
+      · rw [hwn] at hmacc; rcases hmacc with h | h | h <;> cases h
+      · obtain ⟨hms, hmv⟩ := hacc m (mem_flatL_of_anc hn hm) hmacc
+        exact ⟨m, hms, hmv ▸ hmacc, hm⟩
+
+/-! ### the copying form -/
+
+/-- **(6) the copying filter, up to the known duplicate.**  Source: distinct node identities,
+sibling-unique data ids, plain tree whose nodes carry no kind (the copies of a plain tree have
+kind `none`; hypothesis added because the model's well-formedness does not speak about kinds),
+id counter `next > 0` (0 is the system root); predicate without unrecognised answers / foreign
+exceptions; and `NoSelfCloneChild`: no accepted node has a *kept* child with the node's own data
+id (otherwise the duplicate collides with that child and the real code raises
+`UniqueConstraintError`).  Then `Tree.filtered(pred)` succeeds, returns a well-formed tree, and
+after removing the recorded duplicates (`stripDupL`) its shape is that of the specification.
+
+The source is unchanged by type: `treeFiltered` returns a new state and has no access to modify
+`src` (`filtered_source_unchanged` is this remark, not a theorem). -/
+theorem filtered_dupSpec (src : Tree) (next : NodeId) (v : T → Verdict)
+    (hids : IdsNodup src) (hsib : SibUnique src) (hun : src.typed = false)
+    (hkind : ∀ m ∈ flatL src.root.kids, m.kind = none) (hnext : 0 < next)
+    (hv : ∀ m ∈ flatL src.root.kids, v m ≠ .other ∧ v m ≠ .error)
+    (hns : NoSelfCloneChild (Spec.effective v src.root.kids) src.root.kids) :
+    (treeFiltered src next v).2.2 = none ∧ WF (treeFiltered src next v).1 ∧
+      Spec.shL (Spec.stripDupL (Spec.effective v src.root.kids) src.root.kids
+          (treeFiltered src next v).1.root.kids) = Spec.shL (Spec.filterSpec v src.root.kids) := by
+  have hN : C10.IdsNodupL src.root.kids := idsNodupL_kids hids
+  have hS : SibUL src.root.kids :=
+    ⟨hsib _ (self_mem_flat _), fun x hx => hsib x (mem_flat_of_mem_flatL_kids hx)⟩
+  have hwf : WF ({ typed := src.typed } : Tree) := WF.congr (t := {}) rfl rfl rfl C01.WF_init
+  have hgood : Good ({ typed := src.typed } : Tree) next :=
+    ⟨hwf, ⟨hnext, by intro x hx; simp [mkRoot, T.flat, T.flatL] at hx; subst hx; exact hnext⟩, hun⟩
+  have ctx : Ctx { t := { typed := src.typed }, next := next } [.existing 0]
+      { t := { typed := src.typed }, next := next } [.existing 0] 0 (mkRoot []) :=
+    ⟨idem_root _ rfl, rfl, idem_root, hgood, by simp [mkRoot, findT, rootInfo]⟩
+  obtain ⟨C, out⟩ := mainL v (Spec.effective v src.root.kids) src.root.kids _ _ _ _ _ _ hN hv
+    (agree_effective v hN) hS hkind hns rfl ctx (by intro c hc; simp [mkRoot] at hc)
+  have hrun : treeFiltered src next v =
+      ((addFilteredL v src.root.kids { t := { typed := src.typed }, next := next } [.existing 0]).1.t,
+       (addFilteredL v src.root.kids { t := { typed := src.typed }, next := next } [.existing 0]).1.next,
+       (addFilteredL v src.root.kids { t := { typed := src.typed }, next := next } [.existing 0]).1.err) := by
+    unfold treeFiltered addFiltered; rw [addFilteredT_eq]
+  rw [hrun]
+  have hkids : (addFilteredL v src.root.kids { t := { typed := src.typed }, next := next }
+      [.existing 0]).1.t.root.kids = C := by
+    by_cases hC : C = []
+    · rw [out.nil hC, hC]; rfl
+    · rw [(out.cons hC).2]; simp [mkRoot, modT_node, rootInfo]
+  refine ⟨out.err, ?_, ?_⟩
+  · by_cases hC : C = []
+    · show WF (addFilteredL v src.root.kids _ _).1.t
+      rw [out.nil hC]; exact hwf
+    · exact (out.cons hC).1.wf
+  · show Spec.shL (Spec.stripDupL _ _ (addFilteredL v src.root.kids _ _).1.t.root.kids) = _
+    rw [hkids]
+    exact strip_ok _ _ hkind C out.shape
+
+/-- the boundary of (6): **without** stripping the duplicate the copy does *not* have the shape of
+the specification — the recorded known finding (an accepted node gets a leaf copy of itself as
+first child), on the one-node tree with verdict `accept`. -/
+theorem filtered_not_spec_witness :
+    ∃ (src : Tree) (v : T → Verdict),
+      Spec.shL (treeFiltered src 1 v).1.root.kids ≠ Spec.shL (Spec.filterSpec v src.root.kids) :=
+  ⟨{ root := mkRoot [.node { id := 1, data := rootAtom, did := .int 1 } []], byId := [1],
+     byData := [(.int 1, [1])] }, fun _ => .accept, by decide⟩
+
+/-- the hypothesis `NoSelfCloneChild` of (6) cannot be dropped: an accepted node with an accepted
+child carrying the same data id makes the copy fail with the uniqueness error (the duplicate of
+the node collides with the copy of the child). -/
+theorem filtered_selfclone_collides :
+    ∃ (src : Tree) (v : T → Verdict), (treeFiltered src 10 v).2.2 = some .unique :=
+  ⟨{ root := mkRoot [.node { id := 1, data := rootAtom, did := .int 1 }
+        [.node { id := 2, data := rootAtom, did := .int 1 } []]] }, fun _ => .accept, by decide⟩
+
+/-- **(7) in place and copying agree up to the duplicate**: on a well-formed plain tree,
+`Tree.filter(pred)` (the in-place filter started at the system root) leaves exactly the forest
+whose shape is that of `Tree.filtered(pred)` with the duplicates removed.  Corollary of (2) and (6). -/
+theorem inplace_eq_copy_modulo_dup (t : Tree) (next : NodeId) (v : T → Verdict) (h : WF t)
+    (hun : t.typed = false) (hkind : ∀ m ∈ flatL t.root.kids, m.kind = none) (hnext : 0 < next)
+    (hv : ∀ m ∈ flatL t.root.kids, v m ≠ .other ∧ v m ≠ .error)
+    (hns : NoSelfCloneChild (Spec.effective v t.root.kids) t.root.kids) :
+    Spec.shL (Spec.stripDupL (Spec.effective v t.root.kids) t.root.kids (treeFiltered t next v).1.root.kids) =
+      Spec.shL (filterInPlace t 0 v).1.root.kids ∧
+    (filterInPlace t 0 v).2 = none ∧ (treeFiltered t next v).2.2 = none := by
+  have hroot : findT 0 t.root = some t.root := by rw [← h.rootId]; exact findT_self _
+  obtain ⟨x', hx', _, hk, he⟩ := filterInPlace_spec t 0 v t.root h hroot hv
+  obtain ⟨c1, _, c3⟩ := filtered_dupSpec t next v h.ids h.sib hun hkind hnext hv hns
+  have hid : (filterInPlace t 0 v).1.root.id = 0 := (filterInPlace_WF t 0 v h).rootId
+  have : x' = (filterInPlace t 0 v).1.root := by
+    have := findT_self (filterInPlace t 0 v).1.root
+    rw [hid, hx'] at this
+    exact Option.some.inj this
+  rw [← this, hk]
+  exact ⟨c3, he, c1⟩
 
 end Nutree.C08
